@@ -10,8 +10,8 @@
    proved separately under the narrowest guards found. *)
 From Coq Require Import List ZArith NArith String Bool.
 Import ListNotations.
-From Verif Require Import Common.Base Model.Fmtp Model.Codec Model.HeaderExt Model.Section
-     Proofs.Codec Proofs.Section Proofs.ExtNeg.
+From Verif Require Import Common.Base Model.Fmtp Model.Codec Model.HeaderExt Model.Section Model.CodecAssoc
+     Proofs.Codec Proofs.Section Proofs.ExtNeg Proofs.CodecHist Proofs.CodecAssoc.
 From Coq Require Import Lia.
 Open Scope string_scope.
 
@@ -87,6 +87,21 @@ Theorem c10_negotiated_ext_ids_partial : forall regs secs e e' x' r k dirs rem,
   NoDup (map fst l) /\ (forall iu, In iu l -> (1 <= fst iu <= 14)%Z) /\ NoDup (map snd l).
 Proof. exact negotiated_ext_ids. Qed.
 Print Assumptions c10_negotiated_ext_ids_partial.
+
+(* the same over histories, with the transceiver matching inside the step
+   (Model/CodecAssoc.v): for every registration sequence, every history of
+   local additions and answered offers and every further offer, when an offered
+   section with mid m is of the same kind K m in every offer and the extmap
+   lines of all the offers (pairs) use ids within 1..14 and pair ids and URIs
+   one-to-one, every section of the answer has distinct extmap ids within 1..14
+   and each URI once *)
+Theorem c10_hist_answer_ext_ids_partial : forall K pairs video audio multi regs os offer s' l,
+  remote_exts_regular pairs ->
+  Forall (mop_kinds K pairs) os -> mop_kinds K pairs (MExchange offer) ->
+  exchange (run_mops (new_mpc (new_engine video audio multi) (registered regs)) os) offer = (s', Ok l) ->
+  Forall exts_ok l.
+Proof. exact history_answer_exts. Qed.
+Print Assumptions c10_hist_answer_ext_ids_partial.
 
 Example c10_remote_exts_regular_nontrivial :
   remote_exts_regular (all_pairs [mkRsec KVideo [] [(3%Z, w_mid); (5%Z, "urn:x:a")]; mkRsec KAudio [] [(3%Z, w_mid)]]).
